@@ -50,7 +50,7 @@ tvars == <<vars, l, inCall, nsSeen, verdicts>>
 TraceInit == Init /\ l = 1 /\ inCall = FALSE /\ nsSeen = FALSE /\ verdicts = <<>> /\ TLCSet(1, 0)
 
 Hidden ==
-  /\ \/ (\E i \in Ap : ApplierNext(i)) \/ Backoff \/ ResubLock
+  /\ \/ (\E i \in Ap : ApplierNext(i)) \/ Backoff \/ ResubLock \/ ResubSnap
      \/ SenderTakeSub \/ SenderTakeUnsub \/ SenderStop \/ SenderDefault \/ SenderResolve
      \/ WaitRecv \/ RecvFail
   /\ UNCHANGED <<l, inCall, nsSeen, verdicts>>
